@@ -190,7 +190,7 @@ def run(ck, facts, tier):
                 ck.violation(R, short(im["self_key"]), "%s:%s" % (im["file"], im["ln"]), "; ".join(allp[:4]))
             else:
                 ck.ok(R, short(im["self_key"]), "%d variant(s)" % len(adt["variants"]))
-    ck.floor(R, "derived-impls", n_impl, 45)
+    ck.floor(R, "derived-impls", n_impl, 40)
 
     # ------------------------------------------------------------------ BINDERS
     R = "C25.BINDERS"
